@@ -260,13 +260,13 @@ def conditions(tier, seed, active):
 
     for d in (3, 4, 6, 7):
         for i in range(len(KEY_REGEXES)):
-            if quick and (i + d) % 2:
+            if quick and (i + d) % 3:
                 continue
             out.append(dict(id="pattern-keys/d%d/first%d" % (d, i), module=__name__, factory="pattern_keys", params=dict(d=d, i=i, N=1 if quick else 2),
                             timeout=1800, tags=[], witness=[]))
         for k in cand.keywords(d):
             for kind in kinds_for(d, k):
-                if quick and rng.random() < (0.55 if kind in CHEAP_KINDS else 0.93):
+                if quick and rng.random() < (0.65 if kind in CHEAP_KINDS else 0.95):
                     continue
                 c("kw/%s/%s/d%d" % (k, kind, d), "single", dict(d=d, k=k, kind=kind))
                 if rng.random() < (0.015 if quick else 0.1):
